@@ -4,59 +4,59 @@
    bytes) made from a length field of the input; a request above isize::MAX
    is the `capacity overflow' panic of Vec::with_capacity.  The allocator
    abort on a smaller-but-absurd request is observed by the correspondence
-   check, not modelled.  [cfg_today sz] = tree being checked, [cfg_pinned sz]
-   = code as pinned, [cfg_fixed sz] = with notes/C14_prealloc_cap.patch and
-   notes/C14_validate_loaded.patch (and the two C12 patches). *)
-From FendV Require Import Base.Prelude Ser.Generated.BuiltinNames Ser.Codec Ser.Cfg
+   check, not modelled.  [cfg_today sz] = the tree being checked: the code
+   after fix commits 076760b (pre-allocation capped at 1024 elements) and
+   4b8e673 (Base, Large, denominator, Ident validated on load);
+   [cfg_pinned sz] = the code as pinned, for the theorems that document the
+   two repaired defects. *)
+From FendV Require Import Base.Prelude Ser.Generated.BuiltinNames Ser.Codec Ser.Cfg Ser.Witness
   Ser.CodecRT Ser.CodecSafe Ser.NamesProofs Ser.CodecLoaded Ser.CodecCor.
 Open Scope N_scope.
 
-(* deser_total: the model's fuel (= input length) never runs out, for any
-   configuration and any byte list: the model fails only where the code does *)
+(* ---- main theorems: the tree being checked, for every byte list ---- *)
+
+(* the model's fuel (= input length) never runs out, for any configuration:
+   the model fails only where the code does *)
 Theorem C14_deser_total : forall c bs, run (de_vars c) bs <> Err EOutOfFuel.
 Proof. exact de_vars_total. Qed.
 Print Assumptions C14_deser_total.
 
-(* deser_consumes_prefix: a successful load leaves a suffix of its input *)
+(* a successful load leaves a suffix of its input *)
 Theorem C14_deser_consumes_prefix : forall c bs m rest,
   run (de_vars c) bs = Ok (m, rest) -> exists consumed, bs = consumed ++ rest.
 Proof. exact de_vars_prefix. Qed.
 Print Assumptions C14_deser_consumes_prefix.
 
-(* deser_no_panic (full statement: forall bs s, fst (de_vars c bs) <> Panic s)
-   is REFUTED for the pinned reader: a 16-byte input whose second length field
-   is 2^63 reaches Vec::with_capacity's `capacity overflow' ... *)
-Theorem C14_no_panic_refuted :
-  exists bs, de_vars (cfg_pinned sizes_x64) bs = (Panic 1, 9223372036854775808) /\ length bs = 16%nat.
-Proof. exact (ex_intro _ img_panic (conj img_panic_panics eq_refl)). Qed.
-Print Assumptions C14_no_panic_refuted.
-
-(* ... holds outside the class `requested more than (largest element size) x
-   (input length) bytes' for inputs that fit in memory ... *)
-Theorem C14_no_panic_except_known : forall sz bs,
-  alloc_okb sz bs = true -> max_sz sz * len_N bs <= isize_max ->
+(* no input makes the loader panic ... *)
+Theorem C14_no_panic : forall sz bs, prealloc_cap * max_sz sz <= isize_max ->
   forall s, fst (de_vars (cfg_today sz) bs) <> Panic s.
-Proof. exact no_panic_except_known. Qed.
-Print Assumptions C14_no_panic_except_known.
+Proof. exact (fun sz bs H => proj2 (today_bounded sz bs H)). Qed.
+Print Assumptions C14_no_panic.
 
-(* alloc_proportional (full statement: snd (de_vars c bs) <= max_sz * |bs|)
-   is REFUTED for the pinned reader: 16 bytes ask for a terabyte *)
-Theorem C14_alloc_proportional_refuted :
-  exists bs, snd (de_vars (cfg_pinned sizes_x64) bs) = 1099511627776 /\
-             max_sz sizes_x64 * len_N bs = 6144.
-Proof. exact (ex_intro _ img_alloc (conj (f_equal snd img_alloc_requests) eq_refl)). Qed.
-Print Assumptions C14_alloc_proportional_refuted.
+(* ... or request more than 1024 elements' worth of capacity, whatever the
+   length fields say *)
+Theorem C14_alloc_bounded : forall sz bs, prealloc_cap * max_sz sz <= isize_max ->
+  snd (de_vars (cfg_today sz) bs) <= prealloc_cap * max_sz sz.
+Proof. exact (fun sz bs H => proj1 (today_bounded sz bs H)). Qed.
+Print Assumptions C14_alloc_bounded.
 
-(* ... and with the capacity cap no reader panics and no request exceeds
-   cap x (largest element size), whatever the input (any build whose element
-   sizes keep that product below isize::MAX) *)
-Theorem C14_no_panic_alloc_bounded_fixed : forall sz bs, prealloc_cap * max_sz sz <= isize_max ->
-  snd (de_vars (cfg_fixed sz) bs) <= prealloc_cap * max_sz sz /\
-  (forall s, fst (de_vars (cfg_fixed sz) bs) <> Panic s).
-Proof. exact fixed_bounded. Qed.
-Print Assumptions C14_no_panic_alloc_bounded_fixed.
+(* a successfully loaded map is well-formed: what the Rust types promise
+   (wf_codec) and what evaluation and printing rely on (wf_sem: base in
+   2..=36, no empty limb vector, no zero denominator, no empty identifier) *)
+Theorem C14_loaded_wf : forall sz bs m rest, bytes_ok bs ->
+  run (de_vars (cfg_today sz)) bs = Ok (m, rest) ->
+  wfc_vars as_names cap_today sz m = true /\ wfs_vars m = true.
+Proof. exact today_loaded_wf. Qed.
+Print Assumptions C14_loaded_wf.
 
-(* the general forms: any configuration *)
+(* and can be saved and loaded again, giving the same map *)
+Theorem C14_resave_reload : forall sz bs m r rest, bytes_ok bs ->
+  run (de_vars (cfg_today sz)) bs = Ok (m, r) ->
+  run (de_vars (cfg_today sz)) (ser_vars m ++ rest) = Ok (m, rest).
+Proof. exact today_resave_reload. Qed.
+Print Assumptions C14_resave_reload.
+
+(* general forms, any configuration *)
 Theorem C14_panic_means_huge_request : forall c bs s,
   fst (de_vars c bs) = Panic s -> isize_max < snd (de_vars c bs).
 Proof. exact panic_means_huge_request. Qed.
@@ -67,66 +67,71 @@ Theorem C14_capped_bounded : forall c k, c_cap c = Some k -> k * max_sz (c_sz c)
 Proof. exact capped_bounded. Qed.
 Print Assumptions C14_capped_bounded.
 
-(* loaded_wf (full statement: a successfully loaded map satisfies wfs_vars =
-   base in 2..=36, no empty limb vector, no zero denominator, no empty
-   identifier) is REFUTED for the pinned reader: six images, each loaded
-   successfully, re-saved byte-identically, and not well-formed ... *)
-Theorem C14_loaded_wf_refuted :
+Theorem C14_loaded_wf_sem_general : forall c, c_validate c = true -> forall bs m rest,
+  run (de_vars c) bs = Ok (m, rest) -> wfs_vars m = true.
+Proof. exact loaded_wfs. Qed.
+Print Assumptions C14_loaded_wf_sem_general.
+
+Theorem C14_loaded_wf_codec_general : forall c asn,
+  (forall s, mem s (c_from c) = true -> mem s asn = true) ->
+  forall bs m rest, bytes_ok bs -> run (de_vars c) bs = Ok (m, rest) ->
+  wfc_vars asn (c_cap c) (c_sz c) m = true /\ forallb (fun kv => names_ok_value (c_from c) (snd kv)) m = true.
+Proof. exact loaded_wfc. Qed.
+Print Assumptions C14_loaded_wf_codec_general.
+
+(* the inputs that crashed the pinned loader are now ordinary errors with a
+   1 KiB request, and the six non-well-formed images are rejected *)
+Theorem C14_former_crash_images :
+  de_vars (cfg_today sizes_x64) img_panic = (Err EDeser, 1024) /\
+  de_vars (cfg_today sizes_x64) img_alloc = (Err EDeser, 1024).
+Proof. exact img_panic_alloc_today. Qed.
+Print Assumptions C14_former_crash_images.
+
+Theorem C14_bad_images_rejected :
+  forallb (fun m => match run (de_vars (cfg_today sizes_x64)) (ser_vars m) with
+                    | Err EDeser => true | _ => false end) bad_vars = true.
+Proof. exact bad_vars_rejected_today. Qed.
+Print Assumptions C14_bad_images_rejected.
+
+(* ---- the repaired defects (code as pinned) ---- *)
+
+(* fixed 076760b: 16 bytes whose second length field is 2^63 reached
+   Vec::with_capacity's `capacity overflow' ... *)
+Theorem C14_pinned_no_panic_refuted :
+  exists bs, de_vars (cfg_pinned sizes_x64) bs = (Panic 1, 9223372036854775808) /\ length bs = 16%nat.
+Proof. exact (ex_intro _ img_panic (conj img_panic_pinned eq_refl)). Qed.
+Print Assumptions C14_pinned_no_panic_refuted.
+
+(* ... and 16 bytes asked for a terabyte (6144 would have been proportional) *)
+Theorem C14_pinned_alloc_proportional_refuted :
+  exists bs, snd (de_vars (cfg_pinned sizes_x64) bs) = 1099511627776 /\
+             max_sz sizes_x64 * len_N bs = 6144.
+Proof. exact (ex_intro _ img_alloc (conj (f_equal snd img_alloc_pinned) eq_refl)). Qed.
+Print Assumptions C14_pinned_alloc_proportional_refuted.
+
+(* outside the class `requested more than (largest element size) x (input
+   length) bytes' the pinned loader did not panic either *)
+Theorem C14_pinned_no_panic_except_known : forall sz bs,
+  alloc_okb_pinned sz bs = true -> max_sz sz * len_N bs <= isize_max ->
+  forall s, fst (de_vars (cfg_pinned sz) bs) <> Panic s.
+Proof. exact no_panic_pinned_except_known. Qed.
+Print Assumptions C14_pinned_no_panic_except_known.
+
+(* fixed 4b8e673: six images (base 0 / 1 / 200, empty limb vector, zero
+   denominator, empty identifier) loaded under the pinned reader, re-saved
+   byte-identically, and were not well-formed *)
+Theorem C14_pinned_loaded_wf_refuted :
   forallb (fun m => match run (de_vars (cfg_pinned sizes_x64)) (ser_vars m) with
                     | Ok (m', []) => negb (wfs_vars m') && list_N_eqb (ser_vars m') (ser_vars m)
                     | _ => false end) bad_vars = true.
-Proof. exact bad_vars_load_today. Qed.
-Print Assumptions C14_loaded_wf_refuted.
-
-(* ... and holds of the validating reader for every input; it rejects the six *)
-Theorem C14_loaded_wf_fixed : forall sz bs m rest,
-  run (de_vars (cfg_fixed sz)) bs = Ok (m, rest) -> wfs_vars m = true.
-Proof. exact fixed_loaded_wfs. Qed.
-Print Assumptions C14_loaded_wf_fixed.
-
-Theorem C14_loaded_wf_general : forall c, c_validate c = true -> forall bs m rest,
-  run (de_vars c) bs = Ok (m, rest) -> wfs_vars m = true.
-Proof. exact loaded_wfs. Qed.
-Print Assumptions C14_loaded_wf_general.
-
-Theorem C14_bad_images_rejected_fixed :
-  forallb (fun m => match run (de_vars (cfg_fixed sizes_x64)) (ser_vars m) with
-                    | Err EDeser => true | _ => false end) bad_vars = true.
-Proof. exact bad_vars_rejected_fixed. Qed.
-Print Assumptions C14_bad_images_rejected_fixed.
-
-(* a value that was loaded and is well-formed can be saved and loaded again
-   (the writer is total; this is the round trip of C12 for the repaired code) *)
-Theorem C14_resave_reload_fixed : forall sz, sizes_okb sz = true -> forall m rest,
-  wfc_vars as_names sz m = true -> wfs_vars m = true ->
-  run (de_vars (cfg_fixed sz)) (ser_vars m ++ rest) = Ok (m, rest).
-Proof. exact vars_roundtrip_fixed. Qed.
-Print Assumptions C14_resave_reload_fixed.
-
-(* whatever the tree being checked loads from a byte string is wf_codec and
-   mentions only accepted function literals (any uncapped configuration) ... *)
-Theorem C14_loaded_wf_codec : forall c asn, c_cap c = None ->
-  (forall s, mem s (c_from c) = true -> mem s asn = true) ->
-  forall bs m rest, bytes_ok bs -> run (de_vars c) bs = Ok (m, rest) ->
-  wfc_vars asn (c_sz c) m = true /\ forallb (fun kv => names_ok_value (c_from c) (snd kv)) m = true.
-Proof. exact loaded_wfc. Qed.
-Print Assumptions C14_loaded_wf_codec.
-
-(* ... hence saving it and loading the result gives the same map again, unless
-   a scope was loaded (listed class of C12: scope.rs's reader is not the
-   inverse of its writer) *)
-Theorem C14_resave_reload_except_known : forall sz, sizes_okb sz = true -> forall bs m r rest,
-  bytes_ok bs -> run (de_vars (cfg_today sz)) bs = Ok (m, r) ->
-  forallb (fun kv => negb (has_scope_value (snd kv))) m = true ->
-  run (de_vars (cfg_today sz)) (ser_vars m ++ rest) = Ok (m, rest).
-Proof. exact resave_reload_except_known. Qed.
-Print Assumptions C14_resave_reload_except_known.
+Proof. exact bad_vars_load_pinned. Qed.
+Print Assumptions C14_pinned_loaded_wf_refuted.
 
 (* hypotheses are satisfiable *)
 Example C14_hypotheses_inhabited :
-  prealloc_cap * max_sz sizes_x64 <= isize_max /\ sizes_okb sizes_x64 = true /\
+  prealloc_cap * max_sz sizes_x64 <= isize_max /\
   (let bs := ser_vars [(B"a", VNum (num_int 5))] in
-   alloc_okb sizes_x64 bs = true /\ max_sz sizes_x64 * len_N bs <= isize_max /\
    forallb (fun b => b <? 256) bs = true /\
-   run (de_vars (cfg_today sizes_x64)) bs = Ok ([(B"a", VNum (num_int 5))], [])).
+   run (de_vars (cfg_today sizes_x64)) bs = Ok ([(B"a", VNum (num_int 5))], []) /\
+   alloc_okb_pinned sizes_x64 bs = true /\ max_sz sizes_x64 * len_N bs <= isize_max).
 Proof. vm_compute. repeat split; try reflexivity; discriminate. Qed.
